@@ -87,12 +87,12 @@ package sliceio
 
 //@ spec func disjointFrames(f frame.Frame, g frame.Frame) bool = forall(a, 0, len(f.data), forall(b, 0, len(g.data), f.data[a].ptr != g.data[b].ptr))
 //@ spec func scratchOK(d *decodingReader, f frame.Frame) bool = d.scratch.data == nil || (wf(d.scratch) && distinctCols(d.scratch) && len(d.scratch.data) >= 1 && compatible(f, d.scratch) && sizesAgree(f, d.scratch) && disjointFrames(f, d.scratch))
-//@ spec func bufOK(d *decodingReader, f frame.Frame) bool = d.buf.len == 0 || (d.scratch.data != nil && d.buf.data == d.scratch.data && wf(d.buf) && d.err == nil)
+//@ spec func dbufOK(d *decodingReader, f frame.Frame) bool = d.buf.len == 0 || (d.scratch.data != nil && d.buf.data == d.scratch.data && wf(d.buf) && d.err == nil)
 
 //@ func sliceio.(*decodingReader).Read (ctx, f) (n, err)
 //@   requires d != nil && d.dec != nil && d.dec.Decoder != nil && d.crc != nil && d.crc.hside == 1
 //@   requires dest: wf(f) && distinctCols(f) && len(f.data) >= 1
-//@   requires state: scratchOK(d, f) && bufOK(d, f) && d.buf.len >= 0
+//@   requires state: scratchOK(d, f) && dbufOK(d, f) && d.buf.len >= 0
 //@   flag nlarith
 //@   may_panic
 //@   ensures  sticky: implies(old(d.err) != nil, n == 0 && err == old(d.err))
